@@ -82,6 +82,20 @@ CHECKS = {
             'Exhaustive over the finite value model (7 774 values) with falsy values as first-class members; equality of the projected result with the enumerated value and byte-identity '
             'of the second serialisation are judged by TLC. This is encode/decode fidelity: the specification contributes the value space, the statement of what may be lossy, and the judgement - not a model of protobuf.',
             'Projection of pyvizier objects into the value model is done by the driver. Suggest/EarlyStop request/decision converters and fields outside the model are not covered.'),
+    'C03': (EX, '5 C03', 'DesignerSession.tla: TLC enumerates the well-formed session schedules (suggest batches, feasible/infeasible completions, restart marks); '
+            'real designers run on a catalog of 12 space shapes; every suggestion judged by TLC on exact float order keys (Num.tla): each parameter once, within bounds, integral, member of the feasible set',
+            'Scenario enumeration + membership judgement in TLA+, behaviour observed (not modelled): 7 algorithms x 12 shapes x sampled schedules, plus get_default_parameters; '
+            'a raised exception counts as a refusal (allowed), an incomplete or out-of-domain suggestion as a violation.',
+            'Exploration: magnitudes come from the shape catalog; GP designers / BOCS / HARMONICA not run (minutes per suggestion under the equinox stand-in, BOCS broken by the image numpy).'),
+    'C13': (MC, '5 C13', 'Grid.tla: exact model of grid search (mixed-radix index, current_index) model-checked for all batch sequences x restart positions, every session replayed on the real '
+            'GridSearchDesigner and (sampled) hosted in the service across servicer restarts on an SQLite file; DesignerSession.tla restart placements for quasi-random, eagle, NSGA-II, CMA-ES, shuffled grid judged by TLC',
+            'model_checking for grid (each-point-once / covers-grid / repeats-in-order invariants on the model, 19 316 complete sessions replayed); exploration for the other designers: the live instance '
+            'fed the same trial history is the oracle, TLC enumerates restart placements and judges equality of suggestions (or of the public dump for the randomised evolutionary designers).',
+            'Restart = dump -> fresh instance constructed with another seed -> load. Magnitudes from the shape catalog.'),
+    'C14': (EX, '5 C14', 'DesignerSession.tla schedules: run A vs run C (same seed after perturbing numpy/python/jax global random state) vs run D (seed+1), judged by TLC on order keys; '
+            'Runner.tla enumerates benchmark-runner programs, each executed three times on seeded benchmark state factories',
+            'Two-run relation: the specification contributes the enumeration of schedules / runner programs and the equality judgement; A = C for every algorithm, A # D for randomised algorithms on spaces with more than 8 points.',
+            'Fresh-subprocess and wall-clock perturbations are not run in quick; GP designers not run.'),
 }
 
 PENDING = {
